@@ -698,6 +698,7 @@ def run(P, R, tier):
     genmix_rule(P, R)
     heatpair_rule(P, R)
     saveold_rule(P, R)
+    heatscan_rule(P, R)
     R.undecided += ["conservation of the column inventory over shifts (mixing-factor arithmetic)", "bounded mixing / convexity",
                     "stagnant zones, multicomponent diffusion, boundary conditions, reactive solids"]
     R.rule("C11.shift", "in-place advective shift loops over the solution store walk against the copy direction (each source is read before it is overwritten)", minimum=2)
@@ -851,3 +852,38 @@ def saveold_rule(P, R):
                         "with the already mixed solution" % (park[1] if park else "(never)", changer[1]), file=f["file"], line=changer[1], function=f["q"])
     if n < 1:
         R.anchor_missing(RULE, "run_reactions: the block that sets save_old was not found")
+
+
+def heatscan_rule(P, R):
+    """init_heat_mix decides whether heat has to be moved at all: it scans the mobile cells 1..count_cells and, for every stagnant layer n,
+    the cells i + 1 + n * count_cells for a temperature that differs from solution 0.  The two scans walk the same positions i, so they
+    must have the same bounds: the loops over `i` whose body reads cell_data[...].temp are compared (first value, comparison, bound).
+    The stagnant scan stopped one cell short: warm water in the last stagnant cell did not switch thermal diffusion on, the mirror
+    image did."""
+    RULE = "C11.heatscan"
+    R.rule(RULE, "init_heat_mix: the temperature scans of the mobile and of the stagnant cells cover the same positions", minimum=2)
+    f = P.one("Phreeqc::init_heat_mix")
+    scans = []
+    for lp in T.walk(f["body"]):
+        if lp[0] != "For" or not T.is_node(lp[3]) or lp[3][0] != "Bin":
+            continue
+        v = T.strip_casts(lp[3][3])
+        if not (T.is_node(v) and v[0] == "Ref"):
+            continue
+        inner_for = [x for x in T.walk(lp[5]) if x[0] == "For"]
+        reads_temp = any(y[0] == "Member" and y[2].endswith("::temp") for y in T.walk(lp[5])) and any(T.callee_name(c) == "fabs" for c in T.calls(lp[5]))
+        if inner_for or not reads_temp:
+            continue
+        init = "".join(T.text(lp[2], -40).split()) if T.is_node(lp[2]) else ""
+        scans.append((lp[1], init, lp[3][2], "".join(T.text(lp[3][4], -40).split())))
+    if len(scans) < 2:
+        R.anchor_missing(RULE, "init_heat_mix: %d temperature scans found" % len(scans))
+        return
+    ref = scans[0]
+    for line, init, op, bound in scans:
+        inst = "scan@%d" % (line - f["line"])
+        if (init, op, bound) == ref[1:]:
+            R.ok(RULE, inst, "%s ; i %s %s" % (init, op, bound))
+        else:
+            R.violation(RULE, inst, "this temperature scan runs `%s ; i %s %s`, the scan of the mobile cells `%s ; i %s %s`: a cell at the end of the stagnant layer is not looked at, "
+                        "warm water there does not switch thermal diffusion on" % (init, op, bound, ref[1], ref[2], ref[3]), file=f["file"], line=line, function=f["q"])
